@@ -1,7 +1,7 @@
 (* Lemmas for C20 (hardware-diagnostics signatures and register dumps). *)
 From Coq Require Import List NArith ZArith Bool Arith Lia ZifyBool ZifyNat.
 From PV Require Import Base.Bytes Base.Lit Base.Json Base.Utf8 Base.Reader Model.Hexdump Model.Hwdiags Spec.HwdiagsSpec
-                       Proofs.BytesFacts Proofs.HexdumpFacts.
+                       Proofs.BytesFacts Proofs.HexdumpFacts Proofs.HwdiagsUtf8.
 Import ListNotations.
 Ltac Zify.zify_post_hook ::= Z.to_euclidean_division_equations.
 Open Scope N_scope.
@@ -457,8 +457,8 @@ Proof.
     rewrite (hbind_lift _ _ _ _ _ (get_int_be 4 _ _ ltac:(discriminate) Hc)).
     rewrite (bytes_hex_be 4).
     rewrite (hbind_opt _ _ _ _ (get_chip_desc_spec cd (h_model h) (h_node h) (h_pos h) Hn Hp)).
-    rewrite (hbind_ok _ _ _ _ _ (reg_loop_ok cd (h_model h) (h_regs h) f0 _ Hr H1 H4)).
-    rewrite (hbind_ok _ _ _ _ _ (IH f rest Hwt H2 H5 ltac:(simpl in Hf; lia))). reflexivity.
+    rewrite (hbind_ok _ _ _ _ _ (reg_loop_ok cd (h_model h) (h_regs h) f0 _ Hr H1 H3)).
+    rewrite (hbind_ok _ _ _ _ _ (IH f rest Hwt H2 H4 ltac:(simpl in Hf; lia))). reflexivity.
 Qed.
 
 Lemma flat_map_length_in {A B} (f : A -> list B) (l : list A) a : In a l -> (length (f a) <= length (flat_map f l))%nat.
@@ -479,4 +479,401 @@ Proof.
   { pose proof (flat_map_length_ge encode_chip l) as G.
     assert (length l <= length (flat_map encode_chip l))%nat by (apply G; intros a; pose proof (encode_chip_length a); lia). lia. }
   rewrite (hbind_ok _ _ _ _ _ (chip_loop_ok cd _ l _ rest Hwf Hok Hf0 Hf)). reflexivity.
+Qed.
+
+(* "exactly its data bytes": the data column reads back as the bytes *)
+Definition nonsp (c : N) : bool := negb (c =? 32).
+
+Lemma filter_join_cons x l : filter nonsp (join (L " ") (x :: l)) = filter nonsp x ++ filter nonsp (join (L " ") l).
+Proof.
+  destruct l as [|y t]; [simpl; rewrite app_nil_r; reflexivity|].
+  change (join (L " ") (x :: y :: t)) with (x ++ L " " ++ join (L " ") (y :: t)).
+  rewrite !filter_app. reflexivity.
+Qed.
+
+Lemma hexdigU_nonsp n : n < 16 -> nonsp (hexdigU n) = true.
+Proof. intros. unfold nonsp, hexdigU. destruct (N.ltb_spec n 10); apply negb_true_iff, N.eqb_neq; lia. Qed.
+
+Lemma filter_hexU2 b : filter nonsp (hex_fixed hexdigU 2 b) = hex_fixed hexdigU 2 b.
+Proof. rewrite hex_fixed_2. cbn [filter]. rewrite !hexdigU_nonsp by (apply N.mod_lt; lia). reflexivity. Qed.
+
+Lemma filter_data_groups d :
+  filter nonsp (join (L " ") (data_groups d)) = flat_map (hex_fixed hexdigU 2) d.
+Proof.
+  pattern d. apply list_pair_ind; clear d.
+  - reflexivity.
+  - intros b. cbn [data_groups join flat_map]. rewrite app_nil_r. apply filter_hexU2.
+  - intros b1 b2 t IH. cbn [data_groups flat_map]. rewrite filter_join_cons, IH, filter_app, !filter_hexU2.
+    rewrite <- app_assoc. reflexivity.
+Qed.
+
+Lemma unhex_hexU d : Forall (fun b => b < 256) d -> unhex (flat_map (hex_fixed hexdigU 2) d) = d.
+Proof.
+  induction 1 as [|b t Hb Ht IH]; [reflexivity|].
+  cbn [flat_map]. rewrite hex_fixed_2. cbn [app unhex]. rewrite IH.
+  rewrite !hexval_hexdigU by (apply N.mod_lt; lia). f_equal. lia.
+Qed.
+
+Theorem data_back_ok d : Forall (fun b => b < 256) d -> data_back (join (L " ") (data_groups d)) = d.
+Proof. intros. unfold data_back. change (fun c : N => negb (c =? 32)) with nonsp. rewrite (filter_data_groups d). apply unhex_hexU. assumption. Qed.
+
+(* ------------------------------------------------------------------ *)
+(* C20_scratch                                                         *)
+
+Lemma text_eqb_length a : forall b, text_eqb a b = true -> length a = length b.
+Proof. induction a; destruct b; simpl; intros H; try discriminate; [reflexivity|].
+  apply andb_true_iff in H. f_equal. apply IHa. apply H. Qed.
+
+Lemma x0_be n v : x0 (be_bytes n v) = hxt n v.
+Proof. unfold x0, hxt. rewrite bytes_hex_be. reflexivity. Qed.
+
+Theorem scratch_ok cd version ca cv sa sv rest :
+  oe500_ud cd 4 version (encode_scratch ca cv sa sv ++ rest) = HwOk (scratch_render ca cv sa sv).
+Proof.
+  unfold oe500_ud. cbn [N.eqb Pos.eqb]. unfold parse_hb_scratch_regs, encode_scratch. rewrite <- !app_assoc.
+  rewrite (hbind_lift _ _ _ _ _ (get_mem_exact 4 (be_bytes 4 ca) _ (be_bytes_length 4 _) ltac:(discriminate))).
+  rewrite (hbind_lift _ _ _ _ _ (get_mem_exact 4 (be_bytes 4 cv) _ (be_bytes_length 4 _) ltac:(discriminate))).
+  rewrite (hbind_lift _ _ _ _ _ (get_mem_exact 8 (be_bytes 8 sa) _ (be_bytes_length 8 _) ltac:(discriminate))).
+  rewrite (hbind_lift _ _ _ _ _ (get_mem_exact 8 (be_bytes 8 sv) _ (be_bytes_length 8 _) ltac:(discriminate))).
+  unfold hret, finish, scratch_render, hx. rewrite !x0_be. cbn [obj_set].
+  destruct (text_eqb (hxt 8 sa) (hxt 4 ca)) eqn:E; [|reflexivity].
+  apply text_eqb_length in E. unfold hxt in E. rewrite !app_length, !hex_fixed_length in E. simpl in E. lia.
+Qed.
+
+Theorem scratch_sig_ok cd version chipid sigid rest :
+  oe500_ud cd 5 version (encode_scratch_sig chipid sigid ++ rest) = HwOk (scratch_sig_render chipid sigid).
+Proof.
+  unfold oe500_ud. cbn [N.eqb Pos.eqb]. unfold parse_scratch_reg_sig, encode_scratch_sig. rewrite <- !app_assoc.
+  rewrite (hbind_lift _ _ _ _ _ (get_mem_exact 4 (be_bytes 4 chipid) _ (be_bytes_length 4 _) ltac:(discriminate))).
+  rewrite (hbind_lift _ _ _ _ _ (get_mem_exact 4 (be_bytes 4 sigid) _ (be_bytes_length 4 _) ltac:(discriminate))).
+  unfold hret, finish, scratch_sig_render, hx. rewrite !x0_be. reflexivity.
+Qed.
+
+(* the digits shown determine the value (widths as stated: n hex digits for a value below 16^n) *)
+Theorem hex_shown_faithful n v : v < 16 ^ N.of_nat n -> hexnum (hex_fixed hexdigL n v) = v.
+Proof. apply hexnum_hex_fixedL. Qed.
+
+Theorem other_subtype_null cd sub version data : 6 <= sub \/ sub = 0 -> oe500_ud cd sub version data = HwOk JNull.
+Proof.
+  intros H. unfold oe500_ud.
+  destruct (N.eqb_spec sub 1); [lia|]. destruct (N.eqb_spec sub 2); [lia|]. destruct (N.eqb_spec sub 3); [lia|].
+  destruct (N.eqb_spec sub 4); [lia|]. destruct (N.eqb_spec sub 5); [lia|]. reflexivity.
+Qed.
+
+(* ------------------------------------------------------------------ *)
+(* C20_src                                                             *)
+
+Theorem src_ok cd refcode s w2 w3 w4 w5 w6 w7 w8 w9 : asig_wf s ->
+  spells w6 (word_a s) -> spells w7 (word_b s) -> spells w8 (word_c s) ->
+  oe500_src cd refcode [w2; w3; w4; w5; w6; w7; w8; w9] = HwOk (src_render cd refcode s).
+Proof.
+  intros Hwf Ha Hb Hc. unfold oe500_src. rewrite (get_signature_spells cd s w6 w7 w8 Hwf Ha Hb Hc). reflexivity.
+Qed.
+
+Theorem src_argcount cd refcode ws : length ws <> 8%nat -> oe500_src cd refcode ws = HwRaise.
+Proof.
+  intros H. unfold oe500_src.
+  do 8 (destruct ws as [|? ws]; [reflexivity|]). destruct ws; [simpl in H; lia|reflexivity].
+Qed.
+
+(* ------------------------------------------------------------------ *)
+(* every 12 bytes are the encoding of exactly one well-formed signature *)
+
+Lemma be2 a b : a < 256 -> b < 256 -> be_bytes 2 (a * 256 + b) = [a; b].
+Proof. intros. cbn [be_bytes app]. f_equal; [|f_equal]; lia. Qed.
+Lemma be1 a : a < 256 -> be_bytes 1 a = [a].
+Proof. intros. cbn [be_bytes app]. f_equal. apply N.mod_small. assumption. Qed.
+Lemma be4 a b c d : a < 256 -> b < 256 -> c < 256 -> d < 256 ->
+  be_bytes 4 (((a * 256 + b) * 256 + c) * 256 + d) = [a; b; c; d].
+Proof. intros. cbn [be_bytes app]. repeat (f_equal; try lia). Qed.
+
+Theorem encode_sig_onto bs : length bs = 12%nat -> Forall (fun b => b < 256) bs ->
+  exists s, asig_wf s /\ encode_sig s = bs.
+Proof.
+  intros Hl Hb.
+  do 12 (destruct bs as [|? bs]; [discriminate|]). destruct bs; [|discriminate].
+  repeat match goal with H : Forall _ (_ :: _) |- _ => inversion H; clear H; subst end.
+  exists {| a_model := ((n * 256 + n0) * 256 + n1) * 256 + n2; a_pos := n3 * 256 + n4; a_node := n5; a_attn := n6;
+            a_id := n7 * 256 + n8; a_inst := n9; a_bit := n10 |}.
+  split.
+  - unfold asig_wf. cbn [a_model a_pos a_node a_attn a_id a_inst a_bit].
+    change (2 ^ 32) with 4294967296. change (2 ^ 16) with 65536. change (2 ^ 8) with 256. lia.
+  - unfold encode_sig, word_a, word_b, word_c. cbn [a_model a_pos a_node a_attn a_id a_inst a_bit].
+    rewrite be4, !be2, !be1 by assumption. reflexivity.
+Qed.
+
+
+(* ------------------------------------------------------------------ *)
+(* progress: with the fuel the entry points supply, no loop runs out   *)
+
+Definition safe {A} (r : hwr A) : Prop :=
+  forall s, match r s with ROk (_, s') => (length s' <= length s)%nat | RRaise => True | RFuel => False end.
+Definition shrinks {A} (r : hwr A) : Prop :=
+  forall s, match r s with ROk (_, s') => (length s' < length s)%nat | RRaise => True | RFuel => False end.
+
+Lemma shrinks_safe {A} (r : hwr A) : shrinks r -> safe r.
+Proof. intros H s. specialize (H s). destruct (r s) as [[a s']| |]; auto. lia. Qed.
+Lemma safe_ret {A} (a : A) : safe (hret a).
+Proof. intros s. simpl. lia. Qed.
+Lemma safe_opt {A} (o : option A) : safe (hopt o).
+Proof. intros s. unfold hopt. destruct o; simpl; auto. Qed.
+Lemma shrinks_get_mem n : shrinks (hlift (get_mem n)).
+Proof.
+  intros s. unfold hlift, get_mem. destruct n; [exact I|].
+  destruct (Nat.leb (S n) (length s)) eqn:E; [|exact I]. apply Nat.leb_le in E. rewrite skipn_length. lia.
+Qed.
+Lemma shrinks_get_int n : shrinks (hlift (get_int n)).
+Proof.
+  intros s. pose proof (shrinks_get_mem n s) as H. unfold hlift, get_int, bind, ret in *.
+  destruct (get_mem n s) as [[b s']|]; auto.
+Qed.
+Lemma shrinks_get_memN n : shrinks (hlift (get_memN n)).
+Proof. apply shrinks_get_mem. Qed.
+Lemma shrinks_bind {A B} (r : hwr A) (k : A -> hwr B) : shrinks r -> (forall a, safe (k a)) -> shrinks (hbind r k).
+Proof.
+  intros Hr Hk s. unfold hbind. specialize (Hr s). destruct (r s) as [[a s']| |]; auto.
+  specialize (Hk a s'). destruct (k a s') as [[b s'']| |]; auto. lia.
+Qed.
+Lemma safe_bind {A B} (r : hwr A) (k : A -> hwr B) : safe r -> (forall a, safe (k a)) -> safe (hbind r k).
+Proof.
+  intros Hr Hk s. unfold hbind. specialize (Hr s). destruct (r s) as [[a s']| |]; auto.
+  specialize (Hk a s'). destruct (k a s') as [[b s'']| |]; auto. lia.
+Qed.
+
+Ltac safety :=
+  repeat first [ apply shrinks_bind; [first [apply shrinks_get_mem | apply shrinks_get_int | apply shrinks_get_memN]|intros]
+               | apply safe_bind; [first [apply safe_opt | apply shrinks_safe; first [apply shrinks_get_mem | apply shrinks_get_int | apply shrinks_get_memN]]|intros]
+               | apply safe_ret | apply safe_opt ].
+
+Lemma shrinks_read_sig cd : shrinks (read_sig cd).
+Proof. unfold read_sig. safety. Qed.
+Lemma shrinks_read_reg cd m : shrinks (read_reg cd m).
+Proof. unfold read_reg. safety. Qed.
+
+(* a loop whose body shrinks the input is safe once fuel exceeds the remaining length *)
+Lemma sig_loop_safe cd : forall fuel count s, (length s < fuel)%nat ->
+  match sig_loop cd fuel count s with ROk (_, s') => (length s' <= length s)%nat | RRaise => True | RFuel => False end.
+Proof.
+  induction fuel as [|f IH]; intros count s Hf; [lia|].
+  cbn [sig_loop]. destruct (count =? 0); [simpl; lia|].
+  unfold hbind at 1. pose proof (shrinks_read_sig cd s) as H. destruct (read_sig cd s) as [[j s']| |]; auto.
+  unfold hbind. specialize (IH (count - 1) s' ltac:(lia)).
+  destruct (sig_loop cd f (count - 1) s') as [[t s'']| |]; auto. simpl. lia.
+Qed.
+
+Lemma reg_loop_safe cd m : forall fuel count s, (length s < fuel)%nat ->
+  match reg_loop cd m fuel count s with ROk (_, s') => (length s' <= length s)%nat | RRaise => True | RFuel => False end.
+Proof.
+  induction fuel as [|f IH]; intros count s Hf; [lia|].
+  cbn [reg_loop]. destruct (count =? 0); [simpl; lia|].
+  unfold hbind at 1. pose proof (shrinks_read_reg cd m s) as H. destruct (read_reg cd m s) as [[j s']| |]; auto.
+  unfold hbind. specialize (IH (count - 1) s' ltac:(lia)).
+  destruct (reg_loop cd m f (count - 1) s') as [[t s'']| |]; auto. simpl. lia.
+Qed.
+
+Definition chip_head cd : hwr (text * text * N) :=
+  m <~ hlift (get_mem 4) ;; pos <~ hlift (get_int 2) ;; node <~ hlift (get_int 1) ;; nregs <~ hlift (get_int 4) ;;
+  desc <~ hopt (get_chip_desc cd (bytes_hex m) node pos) ;; hret (bytes_hex m, desc, nregs).
+Lemma shrinks_chip_head cd : shrinks (chip_head cd).
+Proof. unfold chip_head. safety. Qed.
+
+Lemma chip_loop_step cd f0 f count s : (count =? 0) = false ->
+  chip_loop cd f0 (S f) count s =
+  (x <~ chip_head cd ;; regs <~ reg_loop cd (fst (fst x)) f0 (snd x) ;; rest <~ chip_loop cd f0 f (count - 1) ;;
+   hret (chip_line_fmt (snd (fst x)) :: regs ++ rest)) s.
+Proof.
+  intros E. cbn [chip_loop]. rewrite E. unfold chip_head, hbind, hlift, hopt, hret.
+  destruct (get_mem 4 s) as [[m s1]|]; [|reflexivity].
+  destruct (get_int 2 s1) as [[pos s2]|]; [|reflexivity].
+  destruct (get_int 1 s2) as [[node s3]|]; [|reflexivity].
+  destruct (get_int 4 s3) as [[nregs s4]|]; [|reflexivity].
+  destruct (get_chip_desc cd (bytes_hex m) node pos); reflexivity.
+Qed.
+
+Lemma chip_loop_safe cd f0 : forall fuel count s, (length s < f0)%nat -> (length s < fuel)%nat ->
+  match chip_loop cd f0 fuel count s with ROk (_, s') => (length s' <= length s)%nat | RRaise => True | RFuel => False end.
+Proof.
+  induction fuel as [|f IH]; intros count s Hf0 Hf; [lia|].
+  destruct (count =? 0) eqn:E; [cbn [chip_loop]; rewrite E; simpl; lia|].
+  rewrite chip_loop_step by assumption.
+  unfold hbind at 1. pose proof (shrinks_chip_head cd s) as H. destruct (chip_head cd s) as [[x s1]| |]; auto.
+  unfold hbind at 1. pose proof (reg_loop_safe cd (fst (fst x)) f0 (snd x) s1 ltac:(lia)) as H2.
+  destruct (reg_loop cd (fst (fst x)) f0 (snd x) s1) as [[regs s2]| |]; auto.
+  unfold hbind. specialize (IH (count - 1) s2 ltac:(lia) ltac:(lia)).
+  destruct (chip_loop cd f0 f (count - 1) s2) as [[t s3]| |]; auto. simpl. lia.
+Qed.
+
+Theorem oe500_ud_no_fuel cd sub version data : oe500_ud cd sub version data <> HwFuel.
+Proof.
+  unfold oe500_ud.
+  destruct (sub =? 1).
+  { unfold parse_signature_list, hbind at 1. pose proof (shrinks_get_int 4 data) as H.
+    destruct (hlift (get_int 4) data) as [[n s]| |]; try discriminate; [|contradiction].
+    unfold hbind. pose proof (sig_loop_safe cd (S (length data)) n s ltac:(lia)) as H2.
+    destruct (sig_loop cd (S (length data)) n s) as [[l s']| |]; try discriminate. contradiction. }
+  destruct (sub =? 2).
+  { unfold parse_register_dump, hbind at 1. pose proof (shrinks_get_int 4 data) as H.
+    destruct (hlift (get_int 4) data) as [[n s]| |]; try discriminate; [|contradiction].
+    unfold hbind. pose proof (chip_loop_safe cd (S (length data)) (S (length data)) n s ltac:(lia) ltac:(lia)) as H2.
+    destruct (chip_loop cd (S (length data)) (S (length data)) n s) as [[l s']| |]; try discriminate. contradiction. }
+  destruct (sub =? 3).
+  { unfold parse_callout_ffdc. destruct (utf8_decode (rstrip_nul data)); discriminate. }
+  destruct (sub =? 4).
+  { unfold parse_hb_scratch_regs.
+    assert (S0 : safe (ca <~ hlift (get_mem 4);; cv <~ hlift (get_mem 4);; sa <~ hlift (get_mem 8);; sv <~ hlift (get_mem 8);;
+       hret (JObj [(L "Hostboot Scratch Registers",
+                    JObj (obj_set (obj_set [] (x0 ca) (JStr (x0 cv))) (x0 sa) (JStr (x0 sv))))]))) by safety.
+    specialize (S0 data). match type of S0 with match ?x with _ => _ end => destruct x as [[j s']| |] end; try discriminate. contradiction. }
+  destruct (sub =? 5).
+  { unfold parse_scratch_reg_sig.
+    assert (S0 : safe (c <~ hlift (get_mem 4);; s <~ hlift (get_mem 4);;
+       hret (JObj [(L "Scratch Register Error Signature",
+                    JObj [(L "Chip ID", JStr (x0 c)); (L "Signature ID", JStr (x0 s))])]))) by safety.
+    specialize (S0 data). match type of S0 with match ?x with _ => _ end => destruct x as [[j s']| |] end; try discriminate. contradiction. }
+  discriminate.
+Qed.
+
+(* ------------------------------------------------------------------ *)
+(* C20_ffdc                                                            *)
+
+Theorem ffdc_ok cd version t b k : utf8_encode t = Some b -> ends_nul t = false ->
+  oe500_ud cd 3 version (b ++ repeat 0 k) = HwOk (ffdc_render t).
+Proof.
+  intros He Hn. unfold oe500_ud. cbn [N.eqb Pos.eqb]. unfold parse_callout_ffdc.
+  rewrite rstrip_nul_padding by (rewrite (utf8_encode_ends_nul t b He); assumption).
+  rewrite (utf8_roundtrip t b He). reflexivity.
+Qed.
+
+Theorem ffdc_not_utf8 cd version data : utf8_decode (rstrip_nul data) = None -> oe500_ud cd 3 version data = HwRaise.
+Proof. intros H. unfold oe500_ud. cbn [N.eqb Pos.eqb]. unfold parse_callout_ffdc. rewrite H. reflexivity. Qed.
+
+(* ------------------------------------------------------------------ *)
+(* C20_fallback                                                        *)
+
+Lemma sig_render_absent cd s : find_chip cd (a_model s) = None -> sig_render cd s = sig_render_raw s.
+Proof.
+  intros H. unfold sig_render, sig_render_raw, cd_type, cd_desc, cd_signame, cd_sigbit, cd_sig, cd_attn. rewrite H. reflexivity.
+Qed.
+
+Lemma sig_render_nodata s : sig_render [] s = sig_render_raw s.
+Proof. apply sig_render_absent. reflexivity. Qed.
+
+Lemma assoc_in {V} (l : list (text * V)) k v : assoc l k = Some v -> exists k', In (k', v) l.
+Proof.
+  induction l as [|[k' v'] t IH]; simpl; [discriminate|].
+  destruct (text_eqb k k'); [intros [= ->]; exists k'; left; reflexivity|].
+  intros H. destruct (IH H) as [k'' Hin]. exists k''. right. assumption.
+Qed.
+
+Lemma addrs_wf_reg_ok cd model r : cd_addrs_wf cd -> reg_addr_ok cd model r.
+Proof.
+  intros Hwf. unfold reg_addr_ok, cd_regaddr, cd_reg, find_chip.
+  destruct (assoc cd (chip_key model)) as [c|] eqn:Ec; [|exact I]. cbn [obind].
+  destruct (assoc (c_regs c) (hex_fixed hexdigL 6 (r_id r))) as [e|] eqn:Ee; [|exact I]. cbn [obind].
+  destruct (assoc (rg_addrs e) (dec (r_inst r))) as [a|] eqn:Ea; [|exact I].
+  apply assoc_in in Ec, Ee, Ea. destruct Ec as [k1 H1]. destruct Ee as [k2 H2]. destruct Ea as [k3 H3].
+  unfold cd_addrs_wf in Hwf. rewrite Forall_forall in Hwf. specialize (Hwf _ H1). cbn [snd] in Hwf.
+  rewrite Forall_forall in Hwf. specialize (Hwf _ H2). cbn [snd] in Hwf.
+  rewrite Forall_forall in Hwf. specialize (Hwf _ H3). exact Hwf.
+Qed.
+
+Lemma addrs_wf_ok cd l : cd_addrs_wf cd -> regdump_addrs_ok cd l.
+Proof.
+  intros Hwf. unfold regdump_addrs_ok. apply Forall_forall. intros h _. apply Forall_forall. intros r _.
+  apply addrs_wf_reg_ok. assumption.
+Qed.
+
+Lemma nodata_addrs_wf : cd_addrs_wf []. Proof. constructor. Qed.
+
+(* what a register line falls back to when the file has no name / no address for it *)
+Lemma reg_render_absent cd model r : find_chip cd model = None ->
+  reg_render cd model r = reg_text None 0 r.
+Proof. intros H. unfold reg_render, reg_addr, cd_regname, cd_regaddr, cd_reg. rewrite H. reflexivity. Qed.
+
+Theorem signature_fallback cd s wa wb wc : asig_wf s ->
+  spells wa (word_a s) -> spells wb (word_b s) -> spells wc (word_c s) ->
+  (exists c g a, get_signature cd wa wb wc = Some (sig_fields c g a)) /\
+  (find_chip cd (a_model s) = None -> get_signature cd wa wb wc = Some (sig_render_raw s)) /\
+  get_signature cd wa wb wc = Some (sig_fields
+    (chip_text (cd_type cd (a_model s)) (cd_desc cd (a_model s)) (a_model s) (a_node s) (a_pos s))
+    (sig_text (cd_signame cd (a_model s) (a_id s)) (cd_sigbit cd (a_model s) (a_id s) (a_bit s)) (a_id s) (a_inst s) (a_bit s))
+    (attn_text (cd_attn cd (a_model s) (a_attn s)) (a_attn s))).
+Proof.
+  intros Hwf Ha Hb Hc. pose proof (get_signature_spells cd s wa wb wc Hwf Ha Hb Hc) as H.
+  split; [|split].
+  - eexists _, _, _. exact H.
+  - intros Hn. rewrite H, sig_render_absent by assumption. reflexivity.
+  - exact H.
+Qed.
+
+(* ------------------------------------------------------------------ *)
+(* truncated payloads are rejected (an exception escapes), never rendered *)
+
+Lemma get_mem_short n s : (length s < n)%nat -> get_mem n s = None.
+Proof. intros H. unfold get_mem. destruct n; [reflexivity|]. replace (Nat.leb (S n) (length s)) with false; [reflexivity|].
+  symmetry. apply Nat.leb_gt. assumption. Qed.
+Lemma get_mem_rest n s a s' : get_mem n s = Some (a, s') -> length s' = (length s - n)%nat.
+Proof. unfold get_mem. destruct n; [discriminate|]. destruct (Nat.leb (S n) (length s)); [|discriminate].
+  intros H. apply Some_inj in H. apply (f_equal snd) in H. cbn [snd] in H. subst s'. apply (skipn_length (S n) s). Qed.
+
+Lemma hlift_short {A} n (k : bytes -> hwr A) s : (length s < n)%nat -> hbind (hlift (get_mem n)) k s = RRaise.
+Proof. intros H. unfold hbind, hlift. rewrite get_mem_short by assumption. reflexivity. Qed.
+
+(* a run of get_mem reads needing more bytes than there are raises *)
+Lemma read_sig_short cd d : (length d < 12)%nat -> read_sig cd d = RRaise.
+Proof.
+  intros H. unfold read_sig, hbind at 1, hlift at 1.
+  destruct (get_mem 4 d) as [[a d1]|] eqn:E1; [|reflexivity]. apply get_mem_rest in E1.
+  unfold hbind at 1, hlift at 1.
+  destruct (get_mem 4 d1) as [[b d2]|] eqn:E2; [|reflexivity]. apply get_mem_rest in E2.
+  apply hlift_short. lia.
+Qed.
+
+Lemma firstn_app_ge {A} (x y : list A) j : (length x <= j)%nat -> firstn j (x ++ y) = x ++ firstn (j - length x) y.
+Proof. intros H. rewrite firstn_app. rewrite firstn_all2 by assumption. reflexivity. Qed.
+Lemma firstn_app_lt {A} (x y : list A) j : (j <= length x)%nat -> firstn j (x ++ y) = firstn j x.
+Proof. intros H. rewrite firstn_app. replace (j - length x)%nat with 0%nat by lia. simpl. apply app_nil_r. Qed.
+
+Lemma sig_loop_truncated cd : forall l fuel j, Forall asig_wf l -> (j < fuel)%nat -> (j < 12 * length l)%nat ->
+  sig_loop cd fuel (N.of_nat (length l)) (firstn j (flat_map encode_sig l)) = RRaise.
+Proof.
+  induction l as [|s t IH]; intros fuel j Hwf Hf Hj; [simpl in Hj; lia|].
+  destruct fuel as [|f]; [lia|]. inversion Hwf; subst.
+  cbn [length flat_map sig_loop]. rewrite of_nat_S_eqb, of_nat_S_pred.
+  destruct (Nat.lt_ge_cases j 12) as [Hlt|Hge].
+  - unfold hbind at 1. rewrite read_sig_short; [reflexivity|]. rewrite firstn_length. lia.
+  - rewrite firstn_app_ge by (rewrite encode_sig_length; assumption). rewrite encode_sig_length.
+    rewrite (hbind_ok _ _ _ _ _ (read_sig_ok cd s _ H1)).
+    unfold hbind. rewrite IH; [reflexivity|assumption|lia|simpl in Hj; lia].
+Qed.
+
+Theorem siglist_truncated cd l version k : Forall asig_wf l -> N.of_nat (length l) < 2 ^ 32 ->
+  (k < length (encode_siglist l))%nat -> oe500_ud cd 1 version (firstn k (encode_siglist l)) = HwRaise.
+Proof.
+  intros Hwf Hn Hk. unfold oe500_ud. cbn [N.eqb Pos.eqb]. unfold parse_signature_list, encode_siglist in *.
+  rewrite app_length, be_bytes_length in Hk.
+  destruct (Nat.lt_ge_cases k 4) as [Hlt|Hge].
+  - unfold hbind at 1, hlift, get_int, bind. rewrite get_mem_short; [reflexivity|]. rewrite firstn_length. lia.
+  - rewrite firstn_app_ge by (rewrite be_bytes_length; assumption). rewrite be_bytes_length.
+    rewrite (hbind_lift _ _ _ _ _ (get_int_be 4 _ _ ltac:(discriminate) Hn)).
+    assert (Hb : (length (flat_map encode_sig l) = 12 * length l)%nat).
+    { clear. induction l; [reflexivity|]. cbn [flat_map length]. rewrite app_length, encode_sig_length, IHl. lia. }
+    unfold hbind. rewrite sig_loop_truncated; [reflexivity|assumption| |lia].
+    rewrite app_length, be_bytes_length, firstn_length. lia.
+Qed.
+
+Theorem scratch_truncated cd version data : (length data < 24)%nat -> oe500_ud cd 4 version data = HwRaise.
+Proof.
+  intros H. unfold oe500_ud. cbn [N.eqb Pos.eqb]. unfold parse_hb_scratch_regs.
+  unfold hbind at 1, hlift at 1. destruct (get_mem 4 data) as [[a d1]|] eqn:E1; [|reflexivity]. apply get_mem_rest in E1.
+  unfold hbind at 1, hlift at 1. destruct (get_mem 4 d1) as [[b d2]|] eqn:E2; [|reflexivity]. apply get_mem_rest in E2.
+  unfold hbind at 1, hlift at 1. destruct (get_mem 8 d2) as [[c d3]|] eqn:E3; [|reflexivity]. apply get_mem_rest in E3.
+  rewrite hlift_short by lia. reflexivity.
+Qed.
+
+Theorem scratch_sig_truncated cd version data : (length data < 8)%nat -> oe500_ud cd 5 version data = HwRaise.
+Proof.
+  intros H. unfold oe500_ud. cbn [N.eqb Pos.eqb]. unfold parse_scratch_reg_sig.
+  unfold hbind at 1, hlift at 1. destruct (get_mem 4 data) as [[a d1]|] eqn:E1; [|reflexivity]. apply get_mem_rest in E1.
+  rewrite hlift_short by lia. reflexivity.
 Qed.
